@@ -71,10 +71,33 @@ def one_case(ctx, drv):
     try:
         pl = gen_tree.gen_plan(rng, depth=rng.choice([1, 2, 3]), hostile=rng.random() < 0.4, max_files=4)
         pl.no_conflicts = True
-        gen_tree.layout(pl, rng, p_dup=0.0, p_second=0.0, p_ignore=0.1)
+        pl.p_dup_manifest = 0.0       # two entries with one (tag, path) key have no canonical order: outside the property's premise
+        lookalike = rng.random() < 0.3
+        if lookalike:
+            # sibling directories whose names merely extend one another, the shortest with a sub-Manifest of its own, and
+            # files that no Manifest lists yet: which Manifest a new entry lands in must not depend on the walk order
+            base = rng.choice(['lib', 'eclass', 'a'])
+            up = rng.choice(['', 'cat'])
+            pl = gen_tree.Plan()
+            pl.no_conflicts = True
+            pl.ignored = set()
+            for d in [base] + [base + x for x in rng.sample(['-extra', '2', '.d', 'x'], rng.randint(1, 3))]:
+                dd = os.path.join(up, d)
+                pl.dirs.add(dd)
+                if up:
+                    pl.dirs.add(up)
+                for i in range(rng.randint(1, 2)):
+                    pl.files[os.path.join(dd, 'f%d' % i)] = bytes(rng.randrange(256) for _ in range(rng.randint(0, 30)))
+            sub = os.path.join(up, base, 'Manifest')
+            pl.manifests['Manifest'] = [{'tag': 'MANIFEST', 'path': sub, 'target': sub, 'hashes': ['SHA1']}]
+            pl.manifests[sub] = []
+            pl.notes.append('lookalike-siblings')
+        else:
+            gen_tree.layout(pl, rng, p_dup=0.0, p_second=0.0, p_ignore=0.1)
         gen_tree.write_plan(pl, root)
         for _ in range(rng.randint(0, 3)):
             gen_tree.mutate_tree(pl, rng, root)
+        ctx.count('layout:' + ('lookalike-siblings' if lookalike else 'generated'))
         o = {'hashes': rng.choice(c03.HASHSETS), 'sort': True}
         if rng.random() < 0.5:
             o['compress_watermark'] = rng.choice([0, 60, 300, 100000])
@@ -150,7 +173,7 @@ def run(ctx):
     ctx.assumptions = ['byte-determinism of the codecs is exercised, not proved']
     drv = common.Driver()
     try:
-        for i in range(60 if ctx.tier == 'quick' else 2000):
+        for i in range(150 if ctx.tier == 'quick' else 3000):
             one_case(ctx, drv)
     finally:
         drv.close()
